@@ -38,9 +38,16 @@ def discover(crate, q, target_dir, log_path):
     with open(log_path, "a") as lf:
         lf.write(out)
     parts = []
+    # rules of the form "@label" name a loop label directly (library models that
+    # are linked only inside CBMC, e.g. "@memcmp.0")
+    for rx, bound in q.unwindset:
+        if rx.startswith("@"):
+            parts.append("%s:%d" % (rx[1:], bound))
     for label, f, line, func in LOOP_RE.findall(out):
         key = "%s %s:%s" % (func, f, line)
         for rx, bound in q.unwindset:
+            if rx.startswith("@"):
+                continue
             if re.search(rx, key):
                 parts.append("%s:%d" % (label, bound))
                 break
